@@ -28,7 +28,7 @@ TYPED = [1.0, 2.0, 0.5, 10.0, 100.0, 0.1, 5.0]
 
 def _pos(r, typed, lo=1e-3, hi=1e3):
     if typed:
-        return r.choice(TYPED)
+        return r.choice([t for t in TYPED if lo <= t <= hi] or [lo])
     return round(log_uniform(r, lo, hi), 8)
 
 
